@@ -1,0 +1,45 @@
+// SPDX-License-Identifier: CC0-1.0
+
+//! Verification instrumentation (cargo feature `verif-hooks`, off by default).
+//!
+//! A thread-local step counter that is ticked by every DAG iterator step and by
+//! the occurs-check loop. A harness can set a fuel limit; when the limit is
+//! exceeded the current operation unwinds with a [`FuelExhausted`] payload.
+//! With the feature disabled none of this code exists.
+
+use std::cell::Cell;
+
+/// Panic payload used when the fuel limit is exceeded.
+#[derive(Copy, Clone, Debug, PartialEq, Eq)]
+pub struct FuelExhausted;
+
+thread_local! {
+    static STEPS: Cell<u64> = const { Cell::new(0) };
+    static LIMIT: Cell<u64> = const { Cell::new(u64::MAX) };
+}
+
+/// Reset the step counter to zero and set the fuel limit.
+pub fn reset(limit: u64) {
+    STEPS.with(|s| s.set(0));
+    LIMIT.with(|l| l.set(limit));
+}
+
+/// Number of steps ticked since the last [`reset`].
+pub fn steps() -> u64 {
+    STEPS.with(|s| s.get())
+}
+
+/// Count one step; unwinds with [`FuelExhausted`] once the limit is exceeded.
+#[inline]
+pub fn tick() {
+    let n = STEPS.with(|s| {
+        let n = s.get() + 1;
+        s.set(n);
+        n
+    });
+    if n > LIMIT.with(|l| l.get()) {
+        // Disarm so that unwinding code which iterates (Drop impls) cannot re-panic.
+        LIMIT.with(|l| l.set(u64::MAX));
+        std::panic::panic_any(FuelExhausted);
+    }
+}
